@@ -360,7 +360,7 @@ PROPS = {
              "octet / 1-3 octets / 1-700 octets per segment with delays up to 50 ms (read timeout is 5 s). UDP batch: 1-3 "
              "client sockets x 1-6 datagrams with unique IDs; every datagram received must come from the server address, match "
              "an outstanding ID once, equal the reference response and fit the payload size; missing datagrams are not "
-             "violations. distinct = (provider, batch shape) classes",
+             "violations. distinct = (provider, batch shape) classes; a fourteenth of the TCP requests are padded to 65535 / 65534 / 65533 / 65532 / 32768 / 16384 / 16383 / 4096 octets. Known finding (open): when the server closes after a response-less request while further client octets are unread, whole earlier responses may be lost to the reset; that exact shape is reported as KNOWN-FINDING, every other difference as a violation",
         assumptions=COMMON_ASSUMPTIONS + [
             "timeouts of the harness (connect 5 s, read 8 s) make a batch inconclusive, never violated",
             "nightly builds (ASan/TSan) exclude the Tokio provider: proc-macro2 1.0.51 does not compile on the nightly toolchain"],
